@@ -17,7 +17,8 @@ def profile(family, big=False):
                           standalone_bn=False, exclude=True, reuse=False, multi_input=True,
                           max_blocks=6 if big else 4, kmax=12 if big else 9, min_blocks=2)
     return ng.Profile(family='2d', standalone_bn=False, exclude=True, reuse=False,
-                      multi_input=True, max_blocks=6 if big else 4, min_blocks=2)
+                      multi_input=True, max_blocks=6 if big else 4, min_blocks=2, bridge=True,
+                      pads=('causal', 'causal', 'none'))
 
 
 @st.composite
